@@ -54,6 +54,13 @@ impl SsuClient {
         Ok(dst.to_vec())
     }
 
+    pub fn set_ids(&mut self, csid: Option<u64>, pid: Option<u64>) {
+        match self {
+            SsuClient::C16(f) => f.codec_mut().verif_set_ids(csid, pid),
+            SsuClient::C32(f) => f.codec_mut().verif_set_ids(csid, pid),
+        }
+    }
+
     pub fn decode(&mut self, wire: &[u8]) -> String {
         let mut src = BytesMut::from(wire);
         let r = match self {
